@@ -24,8 +24,13 @@ def run(c):
         "hash functions are symbolic: verifying p against a row computed from q succeeds iff p = q (argon2, salted sha256: collision freedom assumed) "
         "or iff the 72-byte cyclic expansions of p++[0] and q++[0] are equal (bcrypt: x/crypto's key schedule, stated in the model and exercised on the real library, "
         "including passwords of 71/72/73 bytes, longer ones and embedded NUL bytes)",
-        "PRECIS UsernameCaseMapped.CompareKey, the auth_map_normalize functions and the user-name map tables are parameters of the model; every theorem holds for ALL such functions "
-        "(no law is assumed about them); in differential runs their values over the history's names are computed by the real functions and shipped on the op line",
+        "PRECIS UsernameCaseMapped/UsernameCasePreserved.CompareKey, address.PRECISFold/PRECIS/Valid, strings.ToLower and the user-name map tables are parameters of the model; the general theorems hold for ALL "
+        "normalisation functions and maps (no law is assumed about them); WHICH primitive each auth_map_normalize value applies (authz.NormalizeFuncs, NormalizeAuto) is modelled (normalizeFunc) and the theorems about "
+        "the default normalisation (C14_auto_*) assume only that UsernameCaseMapped.CompareKey is idempotent at the name in question; in differential runs the values of the primitives over the history's names "
+        "are computed by the library functions themselves (not through authz.NormalizeFuncs) and shipped on the op line",
+        "overlapping logins: pass_table.AuthPlain is modelled as two atomic steps (the row is read; the verification of the row that was read returns), management operations are atomic; the harness controls the "
+        "interleaving by holding logins inside the package's HashVerify functions / right after the table's Lookup (no clock is consulted for any verdict); the monitor accepts a verdict iff it is right for SOME "
+        "table state inside the login's interval",
         "one authentication provider behind SASLAuth (the loop over several providers is not modelled); the credentials table itself does not fail (in-memory table)",
         "submission gate: the command sequencing of go-smtp's Conn (EHLO/AUTH/MAIL/RCPT/DATA/RSET) is modelled together with Session.Mail; a second EHLO inside an open transaction is not generated "
         "(it replaces the Session while the Conn keeps its transaction state; outside C14)",
@@ -38,10 +43,17 @@ def run(c):
         "direct table authentication} over user names in exact / upper / mixed / title case, NFD, fullwidth spellings plus names PRECIS rejects, passwords that are empty, ASCII, non-ASCII, "
         "not UTF-8, 71/72/73 bytes, 72 bytes + different tails, hundreds of bytes, with NUL bytes; configurations: auth_map_normalize nil/auto/precis*/casefold/noop x "
         "auth_map nil/identity/email_localpart(_optional)/static (idempotent and not)/regexp (idempotent and not), LOGIN on/off; run against the REAL pass_table + SASLAuth + table modules and against the Lean model; "
-        "the monitor keeps its own account -> last-password map and also sends every credential pair through the other mechanism. "
+        "the monitor keeps its own account -> last-password map, resolves user names with its OWN reading of the documented auth_map_normalize functions and of the identity/static/email_localpart maps "
+        "(not with the code under test), and also sends every credential pair through the other mechanism. User names include pairs of distinct accounts that case folding / compatibility mapping / locale rules "
+        "would merge (straße-strasse, final sigma, dotless i, capital sharp s, ligatures, dz digraphs), names with '@' that are not e-mail addresses, postmaster; passwords include the previous password of the "
+        "account and the current password of another account. "
+        "(1b) overlapping logins inside the histories: 2-4 logins (PLAIN/LOGIN/direct; right, wrong, previous, another account's password; mostly one account) held inside their hash verification or right after "
+        "reading their row so that they are in flight together, with set-password / delete / delete+create of the account in between, finished in any order or released together; each verdict must be right for some "
+        "table state inside that login's interval. "
         "(2) SMTP command sequences of 1-14 commands (plausible sessions with commands dropped/duplicated/moved, and random ones) against real submission and smtp endpoints over TCP, reply codes compared with the model. "
         "(3) call skeletons of the anchored functions re-derived from the current sources and compared with the expectation the model was written from. distinct = distinct op lines",
-        explanation="theorems over all histories, names, passwords, schemes, normalisation functions and user-name maps (no hypothesis on them); gate theorem over all command sequences; "
+        explanation="theorems over all histories, names, passwords, schemes, normalisation functions and user-name maps (no hypothesis on them); over all interleavings of overlapping logins with management "
+        "(a login's verdict is the sequential verdict at the point where it read its row, independent of the other logins); default normalisation addresses the account management addresses; gate theorem over all command sequences; "
         "model tied to the code by differential runs of whole histories / sessions and by regenerated call skeletons",
         search=search,
     )
